@@ -1,25 +1,1116 @@
-//! C07 — not built yet (stub).
+//! C07 — query matching follows the documented query semantics.
+//!
+//! Per case: a random schema (text fields with default / custom analyzers, keyword and i64
+//! fields), a corpus built through 1–4 commits with deletions and upserts, one random query tree
+//! (+ optional root filter / `fields` / `fuzzy`).  The real `IndexReader::search` is run with
+//! `execution: bm25` and a limit above the corpus size.
+//!
+//! * correspondence (`s.disagree`): hit-id set vs the mechanism model `SL.Query.search`
+//!   (planner → expansion against the per-segment dictionaries → candidates from scored
+//!   postings or full scan → matcher → root filter → tombstones), on the segment layout read
+//!   from the real manifest; the query-string parser is compared separately.
+//! * finder (`s.fail`): hit-id set vs `SL.Query.Spec.matchesQ` (documented boolean semantics)
+//!   evaluated on the live documents of the *history* (last operation per id wins); the
+//!   known-finding predicate "the missing document contains no scored term of the request" is
+//!   evaluated on each failing document.
+//!
+//! Analyzers and the regex engine are not modelled: the harness calls the real
+//! `SchemaAnalyzers::{index,search}_analyzer(..).analyze`, `normalize_pattern` and
+//! `util::regex::anchored_regex` and ships their outputs to the model.
+use crate::idx::{self, Outcome};
 use crate::proto::Driver;
 use crate::rng::Rng;
 use crate::summary::Summary;
+use crate::util::scratch;
 use crate::{Prop, Tier};
-use serde_json::{json, Value};
+use searchlite_core::api::Index;
+use serde_json::{json, Map, Value};
+use std::collections::{BTreeMap, BTreeSet};
 
-pub struct Stub;
-pub static P: Stub = Stub;
+pub struct C07;
+pub static P: C07 = C07;
 
-impl Prop for Stub {
+/// word families: every scored leaf of a generated query draws from its own family, so that no
+/// term key is shared by two scoring leaves (that trips a `debug_assert` in `search_segment`,
+/// which belongs to C16)
+const FAMILIES: [&[&str]; 7] = [
+  &["rust", "rusty", "rusts"],
+  &["search", "searching"],
+  &["engine", "engines"],
+  &["fast", "faster"],
+  &["lite"],
+  &["index"],
+  &["the"],
+];
+const TAGS: [&str; 4] = ["News", "tech", "Rust", "misc"];
+
+fn all_words() -> Vec<&'static str> {
+  FAMILIES.iter().flat_map(|f| f.iter().copied()).collect()
+}
+
+// ---------------------------------------------------------------- generator
+
+struct Gen<'a> {
+  rng: &'a mut Rng,
+  text_fields: Vec<String>,
+  kw_fields: Vec<String>,
+  has_year: bool,
+  free: Vec<usize>, // families not yet used by a scored leaf
+  free_tags: Vec<usize>, // tag values not yet used by a scored keyword term
+  kinds: BTreeSet<String>,
+}
+
+impl<'a> Gen<'a> {
+  fn word(&mut self) -> String {
+    let w = *self.rng.pick(&all_words());
+    self.case(w)
+  }
+  fn case(&mut self, w: &str) -> String {
+    // occasional capitalisation (exercises lowercase filters / case-sensitive whitespace analyzers)
+    if self.rng.chance(1, 6) {
+      let mut c = w.chars();
+      match c.next() {
+        Some(f) => f.to_uppercase().collect::<String>() + c.as_str(),
+        None => String::new(),
+      }
+    } else {
+      w.to_string()
+    }
+  }
+  /// a word for a leaf; scored leaves take a fresh family
+  fn leaf_family(&mut self, scored: bool) -> Option<usize> {
+    if scored {
+      if self.free.is_empty() {
+        return None;
+      }
+      let k = self.rng.below(self.free.len());
+      Some(self.free.swap_remove(k))
+    } else {
+      Some(self.rng.below(FAMILIES.len()))
+    }
+  }
+  fn fam_word(&mut self, fam: usize) -> String {
+    let w = *self.rng.pick(FAMILIES[fam]);
+    self.case(w)
+  }
+  fn text_field(&mut self) -> String {
+    self.rng.pick(&self.text_fields).clone()
+  }
+  fn filter(&mut self, depth: usize) -> Value {
+    let n = if depth == 0 { 3 } else { 6 };
+    match self.rng.below(n) {
+      0 if !self.kw_fields.is_empty() => {
+        let f = self.rng.pick(&self.kw_fields).clone();
+        let v = self.tag_value();
+        json!({"KeywordEq": {"field": f, "value": v}})
+      }
+      1 if !self.kw_fields.is_empty() => {
+        let f = self.rng.pick(&self.kw_fields).clone();
+        let vs: Vec<String> = (0..1 + self.rng.below(2)).map(|_| self.tag_value()).collect();
+        json!({"KeywordIn": {"field": f, "values": vs}})
+      }
+      0 | 1 | 2 => {
+        if self.has_year {
+          let lo = 2018 + self.rng.below(6) as i64;
+          let hi = lo + self.rng.below(4) as i64;
+          json!({"I64Range": {"field": "year", "min": lo, "max": hi}})
+        } else if !self.kw_fields.is_empty() {
+          let f = self.rng.pick(&self.kw_fields).clone();
+          let v = self.tag_value();
+          json!({"KeywordEq": {"field": f, "value": v}})
+        } else {
+          json!({"And": []})
+        }
+      }
+      3 => json!({"Not": self.filter(depth - 1)}),
+      4 => json!({"And": [self.filter(depth - 1), self.filter(depth - 1)]}),
+      _ => json!({"Or": [self.filter(depth - 1), self.filter(depth - 1)]}),
+    }
+  }
+  fn tag_value(&mut self) -> String {
+    let t = *self.rng.pick(&TAGS);
+    if self.rng.chance(1, 3) {
+      t.to_uppercase()
+    } else if self.rng.chance(1, 2) {
+      t.to_lowercase()
+    } else {
+      t.to_string()
+    }
+  }
+  fn fields_list(&mut self) -> Vec<String> {
+    let mut fs = self.text_fields.clone();
+    self.rng.shuffle(&mut fs);
+    fs.truncate(1 + self.rng.below(self.text_fields.len()));
+    fs
+  }
+  /// text of a query_string / multi_match: 0–3 plain terms, optional negated term, optional phrase
+  fn query_text(&mut self, scored: bool, allow_field: bool) -> String {
+    let mut parts: Vec<String> = Vec::new();
+    let nterms = self.rng.below(4);
+    for _ in 0..nterms {
+      if let Some(fam) = self.leaf_family(scored) {
+        let w = self.fam_word(fam);
+        if allow_field && self.rng.chance(1, 4) {
+          parts.push(format!("{}:{}", self.text_field(), w));
+        } else {
+          parts.push(w);
+        }
+      }
+    }
+    if self.rng.chance(1, 4) {
+      let w = self.word();
+      if allow_field && self.rng.chance(1, 4) {
+        parts.push(format!("-{}:{}", self.text_field(), w));
+      } else {
+        parts.push(format!("-{w}"));
+      }
+    }
+    if self.rng.chance(1, 4) {
+      let n = 1 + self.rng.below(2);
+      let ws: Vec<String> = (0..n).map(|_| self.word()).collect();
+      if allow_field && self.rng.chance(1, 3) {
+        parts.push(format!("\"{}:{}\"", self.text_field(), ws.join(" ")));
+      } else {
+        parts.push(format!("\"{}\"", ws.join(" ")));
+      }
+    }
+    if parts.is_empty() {
+      // no family left for a scored term: a quoted one-word phrase (phrases are never scored)
+      let w = self.word();
+      parts.push(format!("\"{w}\""));
+    }
+    self.rng.shuffle(&mut parts);
+    parts.join(" ")
+  }
+  fn leaf(&mut self, scored: bool) -> Value {
+    let pick = self.rng.below(100);
+    let (kind, v) = match pick {
+      0..=21 => match self.leaf_family(scored) {
+        Some(fam) => {
+          let w = self.fam_word(fam);
+          ("term", json!({"type":"term","field": self.text_field(), "value": w}))
+        }
+        None => ("match_all", json!({"type":"match_all"})),
+      },
+      22..=27 if !self.kw_fields.is_empty() && (!scored || !self.free_tags.is_empty()) => {
+        let f = self.rng.pick(&self.kw_fields).clone();
+        let v = if scored {
+          let k = self.rng.below(self.free_tags.len());
+          let t = TAGS[self.free_tags.swap_remove(k)];
+          match self.rng.below(3) {
+            0 => t.to_uppercase(),
+            1 => t.to_lowercase(),
+            _ => t.to_string(),
+          }
+        } else {
+          self.tag_value()
+        };
+        ("term_keyword", json!({"type":"term","field": f, "value": v}))
+      }
+      28..=29 if self.has_year => {
+        let mut q = json!({"type":"rank_feature","field":"year"});
+        if self.rng.chance(1, 2) {
+          q["modifier"] = json!(*self.rng.pick(&["log", "log1p", "sqrt", "reciprocal", "none"]));
+        }
+        ("rank_feature", q)
+      }
+      28..=35 => ("match_all", json!({"type":"match_all"})),
+      36..=47 => {
+        let n = 1 + self.rng.below(3);
+        let ws: Vec<String> = (0..n).map(|_| self.word()).collect();
+        let mut q = json!({"type":"phrase","terms": ws});
+        if self.rng.chance(3, 4) {
+          q["field"] = json!(self.text_field());
+        }
+        if self.rng.chance(1, 2) {
+          q["slop"] = json!(self.rng.below(4));
+        }
+        ("phrase", q)
+      }
+      48..=55 => match self.leaf_family(scored) {
+        Some(fam) => {
+          let w = *self.rng.pick(FAMILIES[fam]);
+          let n = 2 + self.rng.below(w.len() - 1);
+          let p: String = w.chars().take(n).collect();
+          let mut q = json!({"type":"prefix","field": self.text_field(), "value": self.case(&p)});
+          if self.rng.chance(1, 5) {
+            q["max_expansions"] = json!(1 + self.rng.below(3));
+          }
+          ("prefix", q)
+        }
+        None => ("match_all", json!({"type":"match_all"})),
+      },
+      56..=67 => {
+        let mut q = json!({"type":"query_string","query": self.query_text(scored, true)});
+        if self.rng.chance(1, 3) {
+          q["fields"] = json!(self.fields_list());
+        }
+        ("query_string", q)
+      }
+      68..=77 => {
+        let mut q = json!({"type":"multi_match","query": self.query_text(scored, false), "fields": self.fields_list()});
+        match self.rng.below(3) {
+          0 => {}
+          1 => q["match_type"] = json!("most_fields"),
+          _ => q["match_type"] = json!("cross_fields"),
+        }
+        if self.rng.chance(1, 3) {
+          q["operator"] = json!("and");
+        }
+        match self.rng.below(5) {
+          0 => q["minimum_should_match"] = json!(self.rng.below(4)),
+          1 => q["minimum_should_match"] = json!(*self.rng.pick(&["0%", "25%", "50%", "75%", "100%"])),
+          _ => {}
+        }
+        ("multi_match", q)
+      }
+      78..=83 => ("constant_score", json!({"type":"constant_score","filter": self.filter(1)})),
+      84..=89 => match self.leaf_family(scored) {
+        Some(fam) => {
+          let w = *self.rng.pick(FAMILIES[fam]);
+          let cs: Vec<char> = w.chars().collect();
+          // patterns keeping the first letter stay inside the family (first letters are distinct);
+          // a leading `*` crosses families and is generated below non-scoring clauses only
+          let pat: String = match self.rng.below(if scored { 3 } else { 4 }) {
+            0 => format!("{}*", cs[..2.min(cs.len())].iter().collect::<String>()),
+            1 => format!("{}?{}", cs[..1].iter().collect::<String>(), cs[2.min(cs.len())..].iter().collect::<String>()),
+            2 => format!("{}*{}", cs[..1].iter().collect::<String>(), cs[cs.len() - 1..].iter().collect::<String>()),
+            _ => format!("*{}", cs[cs.len().saturating_sub(2)..].iter().collect::<String>()),
+          };
+          ("wildcard", json!({"type":"wildcard","field": self.text_field(), "value": pat}))
+        }
+        None => ("match_all", json!({"type":"match_all"})),
+      },
+      _ => match self.leaf_family(scored) {
+        Some(fam) => {
+          let ws = FAMILIES[fam];
+          let w = *self.rng.pick(ws);
+          let w2 = *self.rng.pick(ws);
+          let stem: String = w.chars().take(3).collect();
+          let pat: String = match self.rng.below(7) {
+            0 => w.to_string(),
+            1 => format!("{w}|{w2}"),
+            2 => format!("{stem}.*"),
+            3 => format!("{w}s?"),
+            4 => format!("{stem}[a-z]+"),
+            5 => format!("{stem}[a-z]*"),
+            _ => format!("({w}|{w2})"),
+          };
+          ("regex", json!({"type":"regex","field": self.text_field(), "value": pat}))
+        }
+        None => ("match_all", json!({"type":"match_all"})),
+      },
+    };
+    self.kinds.insert(kind.to_string());
+    v
+  }
+  fn node(&mut self, depth: usize, scored: bool) -> Value {
+    // function_score / script_score wrappers (boost_mode replace, weight functions: the combined
+    // score does not depend on BM25) at any position
+    if self.rng.chance(1, 14) {
+      let inner = self.node(depth.saturating_sub(1), scored);
+      if self.rng.chance(1, 2) || !self.has_year {
+        self.kinds.insert("function_score".into());
+        let mut fns: Vec<Value> = Vec::new();
+        for _ in 0..self.rng.below(3) {
+          fns.push(json!({"type":"weight","weight": self.rng.below(4), "filter": self.filter(1)}));
+        }
+        fns.push(json!({"type":"weight","weight": self.rng.below(3)}));
+        self.rng.shuffle(&mut fns);
+        let mut q = json!({"type":"function_score","query": inner, "functions": fns, "boost_mode":"replace",
+          "score_mode": *self.rng.pick(&["sum", "multiply", "max", "min"])});
+        if self.rng.chance(4, 5) {
+          q["min_score"] = json!(self.rng.below(4));
+        }
+        if self.rng.chance(1, 4) {
+          q["max_boost"] = json!(1 + self.rng.below(3));
+        }
+        return q;
+      }
+      self.kinds.insert("script_score".into());
+      let script = if self.rng.chance(1, 4) { "_score".to_string() } else { format!("_score + 1 / (year - {})", 2018 + self.rng.below(8)) };
+      return json!({"type":"script_score","query": inner, "script": script});
+    }
+    if depth == 0 || self.rng.chance(2, 5) {
+      return self.leaf(scored);
+    }
+    if self.rng.chance(1, 4) {
+      self.kinds.insert("dis_max".into());
+      let n = 1 + self.rng.below(3);
+      let qs: Vec<Value> = (0..n).map(|_| self.node(depth - 1, scored)).collect();
+      return json!({"type":"dis_max","queries": qs});
+    }
+    self.kinds.insert("bool".into());
+    let mut b = Map::new();
+    b.insert("type".into(), json!("bool"));
+    let nm = [0, 0, 1, 1, 2][self.rng.below(5)];
+    let ns = [0, 1, 1, 2, 3][self.rng.below(5)];
+    let nn = [0, 0, 0, 1, 1][self.rng.below(5)];
+    let nf = [0, 0, 0, 1][self.rng.below(4)];
+    if nm > 0 {
+      b.insert("must".into(), Value::Array((0..nm).map(|_| self.node(depth - 1, scored)).collect()));
+    }
+    if ns > 0 {
+      b.insert("should".into(), Value::Array((0..ns).map(|_| self.node(depth - 1, scored)).collect()));
+    }
+    if nn > 0 {
+      b.insert("must_not".into(), Value::Array((0..nn).map(|_| self.node(depth - 1, false)).collect()));
+    }
+    if nf > 0 {
+      b.insert("filter".into(), Value::Array((0..nf).map(|_| self.filter(1)).collect()));
+    }
+    if ns > 0 && self.rng.chance(1, 4) {
+      b.insert("minimum_should_match".into(), json!(self.rng.below(ns + 1)));
+    }
+    Value::Object(b)
+  }
+}
+
+fn gen_schema(rng: &mut Rng) -> (Value, Vec<String>, Vec<String>, bool) {
+  let names = ["body", "title", "notes"];
+  let ntext = 1 + rng.below(3);
+  let mut analyzers: Vec<Value> = Vec::new();
+  let mut text_fields: Vec<Value> = Vec::new();
+  let mut tnames = Vec::new();
+  for (i, name) in names.iter().enumerate().take(ntext) {
+    let an = match rng.below(4) {
+      0 | 1 => "default".to_string(),
+      _ => {
+        let aname = format!("an{i}");
+        let tok = *rng.pick(&["default", "whitespace", "whitespace", "unicode"]);
+        let mut filters: Vec<Value> = Vec::new();
+        if rng.chance(1, 2) {
+          filters.push(json!({"lowercase": true}));
+        }
+        if rng.chance(1, 3) {
+          filters.push(json!({"stopwords": "en"}));
+        }
+        if rng.chance(1, 3) {
+          filters.push(json!({"synonyms": [{"from": ["fast"], "to": ["quick"]}, {"from": ["search", "engine"], "to": ["finder"]}]}));
+        }
+        if rng.chance(1, 3) {
+          filters.push(json!({"stemmer": "english"}));
+        }
+        analyzers.push(json!({"name": aname, "tokenizer": tok, "filters": filters}));
+        aname
+      }
+    };
+    let mut tf = json!({"name": name, "analyzer": an, "stored": true, "indexed": true});
+    match rng.below(8) {
+      // prefixes indexed, plain search side
+      0 => tf["search_as_you_type"] = json!({"min_gram": 1 + rng.below(2), "max_gram": 3 + rng.below(3)}),
+      // different analyzers on the two sides
+      1 => tf["search_analyzer"] = json!("default"),
+      _ => {}
+    }
+    text_fields.push(tf);
+    tnames.push(name.to_string());
+  }
+  let mut kw = Vec::new();
+  let mut kwnames = Vec::new();
+  if rng.chance(3, 4) {
+    kw.push(json!({"name": "tag", "stored": true, "indexed": true, "fast": true}));
+    kwnames.push("tag".to_string());
+  }
+  let has_year = rng.chance(2, 3);
+  let numeric = if has_year { vec![json!({"name": "year", "i64": true, "fast": true, "stored": true})] } else { vec![] };
+  (
+    json!({"doc_id_field": "_id", "analyzers": analyzers, "text_fields": text_fields, "keyword_fields": kw, "numeric_fields": numeric}),
+    tnames,
+    kwnames,
+    has_year,
+  )
+}
+
+fn gen_doc(rng: &mut Rng, id: usize, tnames: &[String], kwnames: &[String], has_year: bool) -> Value {
+  let words = all_words();
+  let mut d = Map::new();
+  d.insert("_id".into(), json!(format!("d{id:02}")));
+  for f in tnames {
+    if f != "body" && rng.chance(1, 4) {
+      continue; // field absent
+    }
+    let mk = |rng: &mut Rng| -> String {
+      let n = 1 + rng.below(if f == "body" { 8 } else { 3 });
+      (0..n)
+        .map(|_| {
+          let w = *rng.pick(&words);
+          if rng.chance(1, 8) {
+            let mut c = w.chars();
+            c.next().map(|x| x.to_uppercase().collect::<String>() + c.as_str()).unwrap_or_default()
+          } else {
+            w.to_string()
+          }
+        })
+        .collect::<Vec<_>>()
+        .join(" ")
+    };
+    if rng.chance(1, 5) {
+      let n = 2 + rng.below(2);
+      let vals: Vec<String> = (0..n).map(|_| mk(rng)).collect();
+      d.insert(f.clone(), json!(vals));
+    } else {
+      d.insert(f.clone(), json!(mk(rng)));
+    }
+  }
+  for f in kwnames {
+    if rng.chance(1, 6) {
+      continue;
+    }
+    if rng.chance(1, 5) {
+      d.insert(f.clone(), json!([*rng.pick(&TAGS), *rng.pick(&TAGS)]));
+    } else {
+      d.insert(f.clone(), json!(*rng.pick(&TAGS)));
+    }
+  }
+  if has_year && rng.chance(5, 6) {
+    d.insert("year".into(), json!(2018 + rng.below(8)));
+  }
+  Value::Object(d)
+}
+
+// ---------------------------------------------------------------- running one case
+
+/// live documents by history: the last operation per id wins
+fn history_live(commits: &[Value]) -> BTreeMap<String, Value> {
+  let mut live: BTreeMap<String, Value> = BTreeMap::new();
+  for c in commits {
+    for id in c["delete"].as_array().cloned().unwrap_or_default() {
+      live.remove(id.as_str().unwrap_or(""));
+    }
+    for d in c["add"].as_array().cloned().unwrap_or_default() {
+      live.insert(d["_id"].as_str().unwrap_or("").to_string(), d);
+    }
+  }
+  live
+}
+
+fn strings_of(v: &Value) -> Vec<String> {
+  match v {
+    Value::String(s) => vec![s.clone()],
+    Value::Array(a) => a.iter().filter_map(|x| x.as_str().map(|s| s.to_string())).collect(),
+    _ => vec![],
+  }
+}
+
+fn query_kinds(q: &Value, out: &mut BTreeSet<String>) {
+  match q {
+    Value::Object(m) => {
+      if let Some(t) = m.get("type").and_then(|t| t.as_str()) {
+        out.insert(t.to_string());
+      }
+      for k in ["must", "should", "must_not", "queries"] {
+        if let Some(a) = m.get(k).and_then(|a| a.as_array()) {
+          for c in a {
+            query_kinds(c, out);
+          }
+        }
+      }
+      if let Some(c) = m.get("query") {
+        if c.is_object() {
+          query_kinds(c, out);
+        }
+      }
+    }
+    Value::String(_) => {
+      out.insert("string".into());
+    }
+    _ => {}
+  }
+}
+
+struct Built {
+  _dir: tempfile::TempDir,
+  index: Index,
+  /// per segment of the manifest: analysed documents (model JSON) in ordinal order + tombstones
+  segments: Vec<Value>,
+  seg_ids: Vec<Vec<String>>,
+  kinds: Vec<Value>,
+  text_fields: Vec<String>,
+  /// `SchemaAnalyzers` cannot be named from outside the crate: rebuilt from the schema on use
+  schema: searchlite_core::Schema,
+}
+
+impl C07 {
+  fn build(&self, case: &Value, s: &mut Summary) -> Option<Built> {
+    let schema_json = &case["schema"];
+    let schema = match idx::schema(schema_json) {
+      Ok(x) => x,
+      Err(e) => {
+        s.disagree("case.schema", case, json!(e), json!("generated schema must be valid"));
+        return None;
+      }
+    };
+    let analyzers = match schema.build_analyzers() {
+      Ok(a) => a,
+      Err(e) => {
+        s.disagree("case.analyzers", case, json!(e.to_string()), json!("generated analyzers must build"));
+        return None;
+      }
+    };
+    let dir = scratch();
+    let index = match idx::create(dir.path(), schema_json, false) {
+      Ok(i) => i,
+      Err(e) => {
+        s.disagree("case.create", case, json!(e), json!("index creation must succeed"));
+        return None;
+      }
+    };
+    let commits = case["commits"].as_array().cloned().unwrap_or_default();
+    // expected layout: one segment per commit with additions, documents in id order
+    let mut seg_docs: Vec<Vec<Value>> = Vec::new();
+    for c in &commits {
+      let adds = c["add"].as_array().cloned().unwrap_or_default();
+      let dels: Vec<String> = c["delete"].as_array().cloned().unwrap_or_default().iter().filter_map(|x| x.as_str().map(|s| s.to_string())).collect();
+      let r = (|| -> Result<(), String> {
+        let mut w = index.writer().map_err(|e| e.to_string())?;
+        if !dels.is_empty() {
+          w.delete_documents(&dels).map_err(|e| format!("delete: {e}"))?;
+        }
+        for d in &adds {
+          w.add_document(&idx::doc(d)).map_err(|e| format!("add: {e}"))?;
+        }
+        w.commit().map_err(|e| format!("commit: {e}"))
+      })();
+      if let Err(e) = r {
+        s.disagree("case.commit", case, json!(e), json!("commit of generated documents must succeed"));
+        return None;
+      }
+      if !adds.is_empty() {
+        let mut sorted = adds.clone();
+        sorted.sort_by(|a, b| a["_id"].as_str().unwrap_or("").cmp(b["_id"].as_str().unwrap_or("")));
+        seg_docs.push(sorted);
+      }
+    }
+    let manifest = index.manifest();
+    if manifest.segments.len() != seg_docs.len()
+      || manifest.segments.iter().zip(seg_docs.iter()).any(|(m, d)| m.doc_count as usize != d.len())
+    {
+      s.disagree(
+        "layout.segments",
+        case,
+        json!(manifest.segments.iter().map(|m| m.doc_count).collect::<Vec<_>>()),
+        json!(seg_docs.iter().map(|d| d.len()).collect::<Vec<_>>()),
+      );
+      return None;
+    }
+    let text_fields: Vec<String> = schema_json["text_fields"].as_array().cloned().unwrap_or_default().iter().map(|f| f["name"].as_str().unwrap_or("").to_string()).collect();
+    let kw_fields: Vec<String> = schema_json["keyword_fields"].as_array().cloned().unwrap_or_default().iter().map(|f| f["name"].as_str().unwrap_or("").to_string()).collect();
+    let num_fields: Vec<String> = schema_json["numeric_fields"].as_array().cloned().unwrap_or_default().iter().map(|f| f["name"].as_str().unwrap_or("").to_string()).collect();
+    let mut kinds: Vec<Value> = Vec::new();
+    for f in &text_fields {
+      kinds.push(json!([f, "text"]));
+    }
+    for f in &kw_fields {
+      kinds.push(json!([f, "keyword"]));
+    }
+    for f in &num_fields {
+      kinds.push(json!([f, "numeric"]));
+    }
+    let mut segments = Vec::new();
+    let mut seg_ids = Vec::new();
+    for (m, docs) in manifest.segments.iter().zip(seg_docs.iter()) {
+      let mut jd = Vec::new();
+      let mut ids = Vec::new();
+      for d in docs {
+        let mut text = Vec::new();
+        for f in &text_fields {
+          let vals = strings_of(&d[f]);
+          if vals.is_empty() {
+            continue;
+          }
+          let an = match analyzers.index_analyzer(f) {
+            Some(a) => a,
+            None => continue,
+          };
+          let toks: Vec<Value> = vals
+            .iter()
+            .map(|v| Value::Array(an.analyze(v).into_iter().map(|t| json!([t.text, t.position])).collect()))
+            .collect();
+          text.push(json!([f, toks]));
+        }
+        let mut kw = Vec::new();
+        for f in &kw_fields {
+          let vals = strings_of(&d[f]);
+          if !vals.is_empty() {
+            kw.push(json!([f, vals]));
+          }
+        }
+        let mut nums = Vec::new();
+        for f in &num_fields {
+          let vals: Vec<i64> = match &d[f] {
+            Value::Number(n) => n.as_i64().into_iter().collect(),
+            Value::Array(a) => a.iter().filter_map(|x| x.as_i64()).collect(),
+            _ => vec![],
+          };
+          if !vals.is_empty() {
+            nums.push(json!([f, vals]));
+          }
+        }
+        let id = d["_id"].as_str().unwrap_or("").to_string();
+        jd.push(json!({"id": id, "text": text, "kw": kw, "i64": nums}));
+        ids.push(id);
+      }
+      segments.push(json!({"docs": jd, "deleted": m.deleted_docs}));
+      seg_ids.push(ids);
+    }
+    Some(Built { _dir: dir, index, segments, seg_ids, kinds, text_fields, schema })
+  }
+}
+
+/// one request against the built index: implementation, mechanism model, spec; returns
+/// (impl ids, spec ids) when everything ran
+#[allow(clippy::too_many_arguments)]
+fn run_request(
+  drv: &mut Driver,
+  b: &Built,
+  case: &Value,
+  request: &Value,
+  live: &BTreeMap<String, Value>,
+  s: &mut Summary,
+  tag: &str,
+) -> Option<(BTreeSet<String>, BTreeSet<String>)> {
+  let query = &request["query"];
+  let default_fields: Vec<String> = match request.get("fields").and_then(|f| f.as_array()) {
+    Some(a) => a.iter().filter_map(|x| x.as_str().map(|s| s.to_string())).collect(),
+    None => b.text_fields.clone(),
+  };
+  // ---- model: which analyses are needed
+  let needs = drv.call("C07", json!({"op":"needs","query": query, "default_fields": default_fields, "kinds": b.kinds}));
+  if needs["ok"] != json!(true) {
+    let err = needs["error"].as_str().unwrap_or("");
+    if err.contains("unsupported") {
+      s.count(&format!("{tag}.unsupported-by-model"));
+      return None;
+    }
+    s.disagree("driver.needs", case, json!(null), needs);
+    return None;
+  }
+  let analyzers = b.schema.build_analyzers().ok()?;
+  let mut analysis = Vec::new();
+  for p in needs["pairs"].as_array().cloned().unwrap_or_default() {
+    let f = p[0].as_str().unwrap_or("");
+    let t = p[1].as_str().unwrap_or("");
+    if let Some(an) = analyzers.search_analyzer(f) {
+      let toks: Vec<Value> = an.analyze(t).into_iter().map(|x| json!([x.text, x.position])).collect();
+      analysis.push(json!([f, t, toks, an.normalize_pattern(t)]));
+    }
+  }
+  let mut ctx = json!({"kinds": b.kinds, "default_fields": default_fields, "analysis": analysis, "query": query});
+  if let Some(fz) = request.get("fuzzy") {
+    if !fz.is_null() {
+      ctx["fuzzy"] = fz.clone();
+    }
+  }
+  // ---- regex oracle: the real engine on every dictionary term of the field
+  let mut kinds = BTreeSet::new();
+  query_kinds(query, &mut kinds);
+  if kinds.contains("regex") {
+    let mut r = ctx.clone();
+    r["op"] = json!("rxneeds");
+    let rn = drv.call("C07", r);
+    if rn["ok"] != json!(true) {
+      s.disagree("driver.rxneeds", case, json!(null), rn);
+      return None;
+    }
+    let mut rx = Vec::new();
+    for p in rn["patterns"].as_array().cloned().unwrap_or_default() {
+      let f = p[0].as_str().unwrap_or("");
+      let pat = p[1].as_str().unwrap_or("");
+      let re = match searchlite_core::util::regex::anchored_regex(pat) {
+        Ok(r) => r,
+        Err(_) => {
+          s.count(&format!("{tag}.invalid-regex"));
+          return None;
+        }
+      };
+      let mut terms: BTreeSet<String> = BTreeSet::new();
+      for seg in &b.segments {
+        for d in seg["docs"].as_array().unwrap() {
+          for e in d["text"].as_array().unwrap() {
+            if e[0] == json!(f) {
+              for v in e[1].as_array().unwrap() {
+                for t in v.as_array().unwrap() {
+                  terms.insert(t[0].as_str().unwrap_or("").to_string());
+                }
+              }
+            }
+          }
+          for e in d["kw"].as_array().unwrap() {
+            if e[0] == json!(f) {
+              for v in e[1].as_array().unwrap() {
+                terms.insert(v.as_str().unwrap_or("").to_ascii_lowercase());
+              }
+            }
+          }
+        }
+      }
+      let hits: Vec<String> = terms.into_iter().filter(|t| re.is_match(t)).collect();
+      rx.push(json!([pat, hits]));
+    }
+    ctx["rx"] = json!(rx);
+  }
+  let mut run = ctx.clone();
+  run["op"] = json!("run");
+  run["segments"] = json!(b.segments);
+  if let Some(f) = request.get("filter") {
+    if !f.is_null() {
+      run["filter"] = f.clone();
+    }
+  }
+  let m = drv.call("C07", run);
+  if m["ok"] != json!(true) {
+    s.disagree("driver.run", case, json!(null), m);
+    return None;
+  }
+  let to_ids = |key: &str| -> BTreeSet<String> {
+    let mut out = BTreeSet::new();
+    for (si, ords) in m[key].as_array().cloned().unwrap_or_default().iter().enumerate() {
+      for o in ords.as_array().cloned().unwrap_or_default() {
+        if let Some(id) = b.seg_ids.get(si).and_then(|ids| ids.get(o.as_u64().unwrap_or(u64::MAX) as usize)) {
+          out.insert(id.clone());
+        }
+      }
+    }
+    out
+  };
+  let mech = to_ids("mech");
+  let spec_layout = to_ids("spec");
+  // positions (segment, ordinal) listed under some scored term; ids are not unique across
+  // segments (an upserted document leaves a tombstoned older version behind)
+  let mut hasq_pos: BTreeSet<(usize, u64)> = BTreeSet::new();
+  for (si, ords) in m["has_qualified"].as_array().cloned().unwrap_or_default().iter().enumerate() {
+    for o in ords.as_array().cloned().unwrap_or_default() {
+      hasq_pos.insert((si, o.as_u64().unwrap_or(u64::MAX)));
+    }
+  }
+  let mut live_pos: BTreeMap<String, (usize, u64)> = BTreeMap::new();
+  for (si, (seg, ids)) in b.segments.iter().zip(b.seg_ids.iter()).enumerate() {
+    let del: BTreeSet<u64> = seg["deleted"].as_array().cloned().unwrap_or_default().iter().filter_map(|x| x.as_u64()).collect();
+    for (o, id) in ids.iter().enumerate() {
+      if !del.contains(&(o as u64)) {
+        live_pos.insert(id.clone(), (si, o as u64));
+      }
+    }
+  }
+  let hasq = |id: &String| live_pos.get(id).map(|p| hasq_pos.contains(p)).unwrap_or(false);
+  let mut rxmiss_pos: BTreeSet<(usize, u64)> = BTreeSet::new();
+  for (si, ords) in m["rx_prefix_miss"].as_array().cloned().unwrap_or_default().iter().enumerate() {
+    for o in ords.as_array().cloned().unwrap_or_default() {
+      rxmiss_pos.insert((si, o.as_u64().unwrap_or(u64::MAX)));
+    }
+  }
+  let rxmiss = |id: &String| live_pos.get(id).map(|p| rxmiss_pos.contains(p)).unwrap_or(false);
+  let below_caps = m["below_caps"] == json!(true);
+  let root_chain = m["root_chain"] == json!(true);
+  let mut drop_pos: BTreeSet<(usize, u64)> = BTreeSet::new();
+  for (si, ords) in m["custom_drop_hit"].as_array().cloned().unwrap_or_default().iter().enumerate() {
+    for o in ords.as_array().cloned().unwrap_or_default() {
+      drop_pos.insert((si, o.as_u64().unwrap_or(u64::MAX)));
+    }
+  }
+  let nested_drop = |id: &String| !root_chain && live_pos.get(id).map(|p| drop_pos.contains(p)).unwrap_or(false);
+  let nqual = m["n_qualified"].as_u64().unwrap_or(0);
+  let side = json!({"expansions_complete": m["expansions_complete"], "covered": m["covered"], "below_caps": m["below_caps"], "root_chain": m["root_chain"], "rx_prefix_ok": m["rx_prefix_ok"], "incomplete_groups": m["incomplete_groups"]});
+  // ---- implementation
+  let mut req = request.clone();
+  req["limit"] = json!(1000);
+  req["execution"] = json!("bm25");
+  req["return_stored"] = json!(false);
+  let reader = match b.index.reader() {
+    Ok(r) => r,
+    Err(e) => {
+      s.disagree("impl.reader", case, json!(e.to_string()), json!("reader must open"));
+      return None;
+    }
+  };
+  let out = idx::search(&reader, &req);
+  let resp = match &out {
+    Outcome::Ok(v) => v.clone(),
+    Outcome::Err(e) => {
+      s.fail("search.error", "a valid generated request was rejected", &json!({"case": case, "request": request}), json!(e));
+      return None;
+    }
+    Outcome::Panic(p) => {
+      if p.contains("Inconsistent leaf for term key") {
+        s.fail(
+          "panic.inconsistent-leaf",
+          "search panics (debug_assert) when one term key feeds two scoring leaves — C16's finding, seen through a C07 request",
+          &json!({"case": case, "request": request}),
+          json!(p),
+        );
+      } else {
+        s.fail("panic.other", "search panicked", &json!({"case": case, "request": request}), json!(p));
+      }
+      return None;
+    }
+  };
+  let ids_vec = idx::hit_ids(&resp);
+  let imp: BTreeSet<String> = ids_vec.iter().cloned().collect();
+  if imp.len() != ids_vec.len() {
+    s.fail("match.duplicate-hit", "a document is returned twice", &json!({"case": case, "request": request}), json!(ids_vec));
+  }
+  // ---- correspondence: mechanism model
+  if imp != mech {
+    s.disagree(
+      &format!("{tag}.mechanism"),
+      &json!({"case": case, "request": request}),
+      json!({"ids": imp, "only_impl": imp.difference(&mech).collect::<Vec<_>>(), "only_model": mech.difference(&imp).collect::<Vec<_>>()}),
+      json!({"ids": mech}),
+    );
+  }
+  // the spec evaluated on the manifest's tombstones must describe the history's live documents
+  let live_ids: BTreeSet<String> = live.keys().cloned().collect();
+  let layout_live: BTreeSet<String> = b
+    .segments
+    .iter()
+    .zip(b.seg_ids.iter())
+    .flat_map(|(seg, ids)| {
+      let del: BTreeSet<u64> = seg["deleted"].as_array().cloned().unwrap_or_default().iter().filter_map(|x| x.as_u64()).collect();
+      ids.iter().enumerate().filter(move |(o, _)| !del.contains(&(*o as u64))).map(|(_, id)| id.clone()).collect::<Vec<_>>()
+    })
+    .collect();
+  if live_ids != layout_live {
+    s.disagree("layout.live", case, json!(layout_live), json!(live_ids));
+    return None;
+  }
+  // ---- finder: documented semantics vs implementation
+  let spec = spec_layout;
+  if !below_caps {
+    // the property speaks about expansion terms *below their caps*: above them the documented
+    // behaviour is truncation, which only the mechanism model describes
+    s.count(&format!("{tag}.above-expansion-caps(finder skipped)"));
+    return Some((imp, spec));
+  }
+  let cr = json!({"case": case, "request": request});
+  for id in spec.difference(&imp) {
+    let obs = json!({"missing": id, "returned": imp, "expected": spec, "model_side_conditions": side});
+    if rxmiss(id) {
+      s.fail(
+        "regex.literal-prefix",
+        "a live document satisfying the query is not returned; it matches a regex clause only through a term that does not start with regex_literal_prefix(pattern), which the dictionary scan skips",
+        &cr,
+        obs,
+      );
+    } else if nqual > 0 && !hasq(id) {
+      s.fail(
+        "candidates.unscored-required-doc",
+        "a live document satisfying the query is not returned; it contains no scored term of the request (candidates are taken from scored postings only)",
+        &cr,
+        obs,
+      );
+    } else if nested_drop(id) {
+      s.fail(
+        "score-drop.nested",
+        "a live document satisfying the query is not returned: a function_score/script_score clause below a bool/dis_max node rejects it (min_score / script without value) and the whole hit is dropped because no sibling clause contributes a score",
+        &cr,
+        obs,
+      );
+    } else {
+      s.fail(
+        "match.missing-doc",
+        "a live document satisfying the query is not returned although it contains a scored term (or the request has none)",
+        &cr,
+        obs,
+      );
+    }
+  }
+  for id in imp.difference(&spec) {
+    let obs = json!({"extra": id, "returned": imp, "expected": spec, "model_side_conditions": side});
+    if !live.contains_key(id) {
+      s.fail("match.dead-doc", "a deleted or unknown document is returned", &cr, obs);
+    } else if rxmiss(id) {
+      s.fail(
+        "regex.literal-prefix",
+        "a returned document does not satisfy the query: a negated regex clause matches it only through a term that does not start with regex_literal_prefix(pattern), which the dictionary scan skips",
+        &cr,
+        obs,
+      );
+    } else if nested_drop(id) {
+      s.fail(
+        "score-drop.nested",
+        "a returned document does not satisfy the query: a required (or negated) function_score/script_score clause below a bool/dis_max node rejects it (min_score / script without value), which is ignored because a sibling clause contributes a score (or because must_not only looks at the inner query)",
+        &cr,
+        obs,
+      );
+    } else {
+      s.fail("match.extra-doc", "a returned document does not satisfy the query", &cr, obs);
+    }
+  }
+  Some((imp, spec))
+}
+
+impl Prop for C07 {
   fn id(&self) -> &'static str {
     "C07"
   }
   fn rule(&self) -> &'static str {
-    "stub"
+    "case = random schema (1-3 text fields: default or custom analyzer from tokenizer default/whitespace/unicode + lowercase/stopwords/synonyms/stemmer; optional keyword and i64 fields), 5-40 documents over a 12-word vocabulary (multi-valued fields, mixed case) in 1-4 commits with deletions and upserts, one query tree to depth 4 (term, match_all, phrase+slop, prefix, wildcard, regex, query_string, multi_match, dis_max, bool, constant_score, rank_feature, function_score [boost_mode replace, weight functions, min_score/max_boost], script_score [`_score` or `_score + 1 / (year - k)`]; optional root filter, `fields`, `fuzzy`), execution bm25, limit 1000; plus up to 3 indexed-word probes (term query for a word of a live document) and one query-string parser comparison; a case is non-trivial when the documented semantics selects at least one live document and rejects at least one"
   }
-  fn count(&self, _tier: Tier) -> usize {
-    0
+  fn count(&self, tier: Tier) -> usize {
+    tier.pick(400, 20000)
   }
-  fn gen(&self, _rng: &mut Rng, _tier: Tier, _i: usize) -> Value {
-    json!(null)
+  fn gen(&self, rng: &mut Rng, _tier: Tier, _i: usize) -> Value {
+    let (schema, tnames, kwnames, has_year) = gen_schema(rng);
+    let ndocs = 5 + rng.below(36);
+    let ncommits = 1 + rng.below(4);
+    let mut commits: Vec<Value> = Vec::new();
+    let mut next_id = 0usize;
+    let mut known: Vec<usize> = Vec::new();
+    for c in 0..ncommits {
+      let share = if c + 1 == ncommits { ndocs.saturating_sub(next_id) } else { (ndocs / ncommits).max(1) };
+      let mut adds = Vec::new();
+      let mut dels: Vec<String> = Vec::new();
+      let mut touched: BTreeSet<usize> = BTreeSet::new();
+      if c > 0 && !known.is_empty() {
+        for _ in 0..rng.below(4) {
+          let k = *rng.pick(&known);
+          if touched.insert(k) {
+            dels.push(format!("d{k:02}"));
+          }
+        }
+        for _ in 0..rng.below(3) {
+          let k = *rng.pick(&known);
+          if touched.insert(k) {
+            adds.push(gen_doc(rng, k, &tnames, &kwnames, has_year)); // upsert
+          }
+        }
+      }
+      for _ in 0..share {
+        adds.push(gen_doc(rng, next_id, &tnames, &kwnames, has_year));
+        known.push(next_id);
+        next_id += 1;
+      }
+      commits.push(json!({"add": adds, "delete": dels}));
+    }
+    let mut g = Gen { rng, text_fields: tnames.clone(), kw_fields: kwnames.clone(), has_year, free: (0..FAMILIES.len()).collect(), free_tags: (0..TAGS.len()).collect(), kinds: BTreeSet::new() };
+    let depth = g.rng.below(5);
+    let query = if g.rng.chance(1, 12) { json!(g.query_text(true, true)) } else { g.node(depth, true) };
+    let mut request = json!({"query": query});
+    if g.rng.chance(1, 5) && (!kwnames.is_empty() || has_year) {
+      request["filter"] = g.filter(2);
+    }
+    if g.rng.chance(1, 6) {
+      request["fields"] = json!(g.fields_list());
+    }
+    if g.rng.chance(1, 6) {
+      let mx = [1usize, 3, 50][g.rng.below(3)];
+      request["fuzzy"] = json!({"max_edits": g.rng.below(3), "prefix_length": 1 + g.rng.below(2), "max_expansions": mx, "min_length": 3 + g.rng.below(2)});
+    }
+    let qs = if g.rng.chance(1, 2) {
+      g.query_text(false, true)
+    } else {
+      // character soup for the query-string parser: quotes (also unbalanced), colons, dashes,
+      // assorted white space
+      let alphabet = ["a", "b", "rust", "body", ":", ":", "-", "--", "\"", "\"", " ", " ", "  ", "\t", "_", "1", "é", "\u{00a0}", "\n"];
+      let n = g.rng.below(14);
+      (0..n).map(|_| *g.rng.pick(&alphabet)).collect::<Vec<_>>().join("")
+    };
+    json!({"schema": schema, "commits": commits, "request": request, "parse": qs})
   }
-  fn run_case(&self, _drv: &mut Driver, _case: &Value, _s: &mut Summary) {}
+
+  fn run_case(&self, drv: &mut Driver, case: &Value, s: &mut Summary) {
+    // ---- parser correspondence (`parse_query` is public)
+    if let Some(qs) = case["parse"].as_str() {
+      let p = searchlite_core::api::query::parse_query(qs);
+      let qt = |t: &searchlite_core::api::query::QueryTerm| json!([t.field, t.term]);
+      let imp = json!({
+        "terms": p.terms.iter().map(qt).collect::<Vec<_>>(),
+        "not_terms": p.not_terms.iter().map(qt).collect::<Vec<_>>(),
+        "phrases": p.phrases.iter().map(|ph| json!([ph.field, ph.terms])).collect::<Vec<_>>(),
+      });
+      let m = drv.call("C07", json!({"op":"parse","query": qs}));
+      if m["ok"] != json!(true) || m["terms"] != imp["terms"] || m["not_terms"] != imp["not_terms"] || m["phrases"] != imp["phrases"] {
+        s.disagree("parse_query", &json!({"parse": qs}), imp, m);
+      }
+    }
+    let b = match self.build(case, s) {
+      Some(b) => b,
+      None => {
+        s.case(case, false);
+        return;
+      }
+    };
+    let commits = case["commits"].as_array().cloned().unwrap_or_default();
+    let live = history_live(&commits);
+    // exploration aid (never generated): `"raw": [requests]` runs the implementation only and
+    // reports the hit ids in the notes
+    if let Some(raws) = case.get("raw").and_then(|r| r.as_array()) {
+      if let Ok(reader) = b.index.reader() {
+        for r in raws {
+          let mut req = r.clone();
+          req["limit"] = json!(1000);
+          req["execution"] = json!("bm25");
+          req["return_stored"] = json!(false);
+          let out = idx::search(&reader, &req);
+          let ids = out.ok().map(idx::hit_ids);
+          s.notes.push(format!("raw {} => {:?} {}", r, ids, if ids.is_none() { out.to_json().to_string() } else { String::new() }));
+        }
+      }
+      return;
+    }
+    let request = &case["request"];
+    let mut kinds = BTreeSet::new();
+    query_kinds(&request["query"], &mut kinds);
+    for k in &kinds {
+      s.count(&format!("query.{k}"));
+    }
+    s.count(&format!("segments.{}", b.segments.len()));
+    if b.segments.iter().any(|sg| sg["deleted"].as_array().map(|a| !a.is_empty()).unwrap_or(false)) {
+      s.count("with_tombstones");
+    }
+    if request.get("filter").is_some() {
+      s.count("with_root_filter");
+    }
+    if request.get("fuzzy").is_some() {
+      s.count("with_fuzzy");
+    }
+    if case["schema"]["analyzers"].as_array().map(|a| !a.is_empty()).unwrap_or(false) {
+      s.count("with_custom_analyzer");
+    }
+    let r = run_request(drv, &b, case, request, &live, s, "search");
+    let nontrivial = match &r {
+      Some((_, spec)) => !spec.is_empty() && spec.len() < live.len(),
+      None => false,
+    };
+    if let Some((_, spec)) = &r {
+      s.count(if spec.is_empty() { "spec.none" } else if spec.len() == live.len() { "spec.all" } else { "spec.some" });
+    }
+    s.case(case, nontrivial);
+    // ---- "every indexed word of a document finds that document"
+    let mut probes = 0;
+    let Ok(analyzers) = b.schema.build_analyzers() else { return };
+    for (id, d) in live.iter() {
+      if probes >= 3 {
+        break;
+      }
+      for f in &b.text_fields {
+        let vals = strings_of(&d[f]);
+        let Some(w) = vals.first().and_then(|v| v.split_whitespace().next()) else { continue };
+        let (Some(ia), Some(sa)) = (analyzers.index_analyzer(f), analyzers.search_analyzer(f)) else { continue };
+        // hypothesis of `indexed_word_found`: some search-side token of the word was indexed for this document
+        let indexed: BTreeSet<String> = vals.iter().flat_map(|v| ia.analyze(v).into_iter().map(|t| t.text)).collect();
+        let hyp = sa.analyze(w).into_iter().any(|t| indexed.contains(&t.text));
+        if !hyp {
+          s.count("probe.hypothesis-unmet");
+          continue;
+        }
+        probes += 1;
+        s.count("probe.run");
+        let preq = json!({"query": {"type":"term","field": f, "value": w}});
+        if let Some((imp, _)) = run_request(drv, &b, case, &preq, &live, s, "probe") {
+          if !imp.contains(id) {
+            s.fail("indexed-word.not-found", "a term query for an indexed word of a live document does not return it", &json!({"case": case, "request": preq}), json!({"doc": id, "returned": imp}));
+          }
+        }
+        break;
+      }
+    }
+  }
+  fn finish(&self, _tier: Tier, s: &mut Summary) {
+    s.exhaustive = false;
+    s.notes.push("not modelled and therefore not generated: function_score with boost_mode other than replace, field_value_factor/decay functions, score_mode avg (their drop decision depends on BM25 scores), arbitrary scripts, vector clauses".into());
+    s.notes.push("minimum_should_match percentages are generated from {0,25,50,75,100}% (exact in f32); field-name characters in quoted phrases are recognised up to U+02C1".into());
+    s.notes.push("phrase queries are generated on text fields only (keyword postings carry no positions, a phrase can never match a keyword field)".into());
+  }
 }
